@@ -232,7 +232,7 @@ public:
   using pointer = return_value_holder<value_type>;
   using reference = const value_type;
   const_iterator& operator++();
-  const_iterator& operator++(int);
+  const_iterator operator++(int);
   bool operator==(const const_iterator& other) const;
   bool operator!=(const const_iterator& other) const;
   const value_type operator*() const;
